@@ -535,3 +535,67 @@ Definition effective_default (call : option string) (roots_default latest : stri
 (* the compiler options the model knows about: none of AssertFormat, AssertContent, AssertVocabs,
    RegisterFormat, RegisterVocabulary, UseLoader, UseRegexpEngine ... *)
 Definition known_compiler_methods : list string := ["DefaultDraft"; "AddResource"; "Compile"; "MustCompile"].
+
+(* ---------- numbers are exact: no rounding anywhere ---------- *)
+
+(* the document {properties: {k: {<kw>: b}}} *)
+Definition bound_doc (kw : string) (b : val) : val :=
+  VMap [("properties", VMap [("k", VMap [(kw, b)])])].
+
+Ltac zcbv :=
+  cbv -[Z.compare Z.mul Z.pow Z.min Z.sub Z.add Z.leb Z.ltb Z.eqb Z.modulo Z.div Z.abs Z.of_nat Z.opp];
+  change (0 - Z.min 0 0)%Z with 0%Z; rewrite ?Z.pow_0_r, ?Z.mul_1_r.
+
+(* for integers n, m of ANY size (Z), whatever the compiler's default draft: the value k = n
+   violates maximum m iff n > m, minimum m iff n < m, exclusiveMaximum m iff n >= m,
+   exclusiveMinimum m iff n <= m, const m / enum [m] iff n <> m, enum [m; m'] iff it is neither *)
+Lemma numeric_bounds_exact : forall dflt n m m',
+  let v := VMap [("k", VNum n)] in
+  run dflt (bound_doc "maximum" (VNum m)) v = (if (n <=? m)%Z then VOk else VViolation)
+  /\ run dflt (bound_doc "minimum" (VNum m)) v = (if (m <=? n)%Z then VOk else VViolation)
+  /\ run dflt (bound_doc "exclusiveMaximum" (VNum m)) v = (if (n <? m)%Z then VOk else VViolation)
+  /\ run dflt (bound_doc "exclusiveMinimum" (VNum m)) v = (if (m <? n)%Z then VOk else VViolation)
+  /\ run dflt (bound_doc "const" (VNum m)) v = (if (n =? m)%Z then VOk else VViolation)
+  /\ run dflt (bound_doc "enum" (VList [VNum m])) v = (if (n =? m)%Z then VOk else VViolation)
+  /\ (m <> m' ->
+      run dflt (bound_doc "enum" (VList [VNum m; VNum m'])) v = (if (n =? m)%Z || (n =? m')%Z then VOk else VViolation)).
+Proof.
+  intros dflt n m m' v. unfold v, bound_doc.
+  repeat split; try intros Hne; destruct dflt; zcbv;
+    unfold Z.leb, Z.ltb; try rewrite (Z.compare_antisym n m);
+    try (destruct (n ?= m)%Z; reflexivity);
+    try (destruct (n =? m)%Z; reflexivity).
+  all: try (destruct (n =? m)%Z, (n =? m')%Z; reflexivity).
+  (* draft-07 wants the items of "enum" unique *)
+  all: destruct (m =? m')%Z eqn:E; [apply Z.eqb_eq in E; contradiction|];
+       destruct (n =? m)%Z, (n =? m')%Z; reflexivity.
+Qed.
+
+(* multipleOf m (m > 0): n is accepted iff m divides n *)
+Lemma multiple_of_exact : forall dflt n m, (0 < m)%Z ->
+  run dflt (bound_doc "multipleOf" (VNum m)) (VMap [("k", VNum n)])
+  = (if (n mod m =? 0)%Z then VOk else VViolation).
+Proof.
+  intros dflt n m Hm. unfold bound_doc. destruct dflt; zcbv;
+    (replace (0 ?= m)%Z with Lt by (symmetry; now apply Z.compare_lt_iff));
+    destruct (n mod m =? 0)%Z; reflexivity.
+Qed.
+
+(* the same beyond int64, for long decimals and exponent spellings, where the harness prints the
+   number by its spelling ([VFlt]): 2^64 against 2^64 - 1, 10^21 + 1, 19-digit decimals, 1.0 = 1 *)
+Lemma big_number_examples :
+  let k v := VMap [("k", v)] in
+  doc_verdict (bound_doc "maximum" (VFlt "18446744073709551615")) (k (VFlt "18446744073709551616")) = VViolation
+  /\ doc_verdict (bound_doc "maximum" (VFlt "18446744073709551615")) (k (VFlt "18446744073709551615")) = VOk
+  /\ doc_verdict (bound_doc "maximum" (VNum 9007199254740992)) (k (VNum 9007199254740993)) = VViolation
+  /\ doc_verdict (bound_doc "maximum" (VFlt "1000000000000000000000")) (k (VFlt "1000000000000000000001")) = VViolation
+  /\ doc_verdict (bound_doc "maximum" (VFlt "1000000000000000000000")) (k (VFlt "1.0e+21")) = VOk
+  /\ doc_verdict (bound_doc "maximum" (VFlt "0.1234567890123456789")) (k (VFlt "0.1234567890123456790")) = VViolation
+  /\ doc_verdict (bound_doc "maximum" (VFlt "0.1234567890123456789")) (k (VFlt "0.12345678901234567890")) = VOk
+  /\ doc_verdict (bound_doc "const" (VNum 1)) (k (VFlt "1.0")) = VOk
+  /\ doc_verdict (bound_doc "const" (VNum 1)) (k (VFlt "1.0000000000000000001")) = VViolation
+  /\ doc_verdict (bound_doc "type" (VStr "integer")) (k (VFlt "12300e-2")) = VOk
+  /\ doc_verdict (bound_doc "type" (VStr "integer")) (k (VFlt "123e-1")) = VViolation
+  /\ doc_verdict (bound_doc "multipleOf" (VFlt "0.01")) (k (VFlt "123456789012345678.915")) = VViolation
+  /\ doc_verdict (bound_doc "multipleOf" (VNum 3)) (k (VNum 9007199254740993)) = VOk.
+Proof. vm_compute. repeat split; reflexivity. Qed.
